@@ -118,14 +118,20 @@ package mask
 
 //@ func (*Plugin).processMask
 //@   option allow-exit yes
-//@   ghost nrewritten int = 0
+//@   ghost napp int = 0
+//@   ghost glen int = 0
 //@   requires len(p.hasMasksIgnoreFields) == len(p.config.Masks) && len(p.hasMasksProcessFields) == len(p.config.Masks) && len(p.maskApplyCount) == len(p.config.Masks)
-//@   loop 1 invariant nrewritten >= 0 && (nrewritten > 0 ==> valueCopied) && len(p.hasMasksIgnoreFields) == len(p.config.Masks) && len(p.hasMasksProcessFields) == len(p.config.Masks) && len(p.maskApplyCount) == len(p.config.Masks)
+//@   loop 1 invariant napp >= 0 && (napp > 0 ==> len(p.sourceBuf) == glen) && len(value) > 0
+//@   loop 1 invariant napp == 0 && valueCopied ==> len(p.sourceBuf) == len(value)
+//@   loop 1 invariant napp > 0 ==> valueCopied
+//@   loop 1 invariant len(p.hasMasksIgnoreFields) == len(p.config.Masks) && len(p.hasMasksProcessFields) == len(p.config.Masks) && len(p.maskApplyCount) == len(p.config.Masks)
 //@   assume at "mask.maskValue(" mask.Re_ != nil && allrange(mask.Groups, 0, uf_nsub(mask.Re_) + 1) && (mask.mode == modeMask || mask.mode == modeReplace || mask.mode == modeCut)
-//@   assert at "p.sourceBuf = append(p.sourceBuf[:0], value...)" nrewritten == 0
-//@   setat "p.sourceBuf = append(p.sourceBuf[:0], p.maskBuf...)" nrewritten := nrewritten + 1
 //@   callee maskValue(v, b) (r, ok)
+//@     requires napp == 0 ==> len(v) == len(value)
+//@     requires napp > 0 ==> len(v) == glen
 //@     preserves Plugin, Mask, []bool, int, []int
+//@     set glen := ite(ok, len(r), glen)
+//@     set napp := napp + ite(ok, 1, 0)
 //@   callee checkMatchRules(v) (r)
 //@     preserves Plugin, Mask, []bool, int, []int
 //@   callee AsBytes() (r)
